@@ -1544,6 +1544,9 @@ def with_shape(v, shape, extra=None):
 _AGG_FUNS = {}
 
 
+_AGG_GRADS = [0]
+
+
 def _aggregate(ip, kind, v, axis=None, keepdims=False, **k):
   """Group reduction over the scaling group G of the element under consideration.
   Modelled as an uninterpreted function, one per (kind, tensor shape, reduction axes), applied to the
@@ -1582,7 +1585,19 @@ def _aggregate(ip, kind, v, axis=None, keepdims=False, **k):
     new_shape = tuple(1 for _ in shape)
   else:
     new_shape = ()
-  return SNum(g, "tensor", z3.RealVal(0) if ip_tracks_grad(ip) else None, {"group": True, "shape": new_shape})
+  grad = None
+  if ip_tracks_grad(ip):
+    # derivative of a group reduction w.r.t. the tracked element: unknown (1 or -1 on the arg-max, 1/N for a mean,
+    # ...) unless the reduced expression does not depend on it; a fresh unconstrained real keeps the claim honest:
+    # the gradient of the result is independent of it only if the program stops it (stop_gradient, round, ...)
+    vg = getattr(v, "grad", None)
+    zero = vg is None or (z3.is_rational_value(z3.simplify(vg)) and z3.simplify(vg).numerator_as_long() == 0)
+    if zero:
+      grad = z3.RealVal(0)
+    else:
+      _AGG_GRADS[0] += 1
+      grad = z3.Real("dagg#%d" % _AGG_GRADS[0])
+  return SNum(g, "tensor", grad, {"group": True, "shape": new_shape})
 
 
 @model("tf.reshape", "K.reshape")
